@@ -236,4 +236,72 @@ theorem storeWF_legacyDelete {st : Store} (h : StoreWF st) (id : Name) : StoreWF
 theorem storeWF_empty (m : Bool) : StoreWF { cfgMode := m } :=
   ⟨by simp, by simp, by simp, by simp, by simp⟩
 
+/-! ### histories -/
+
+/-- legacy rows never carry a peer (`Intention.Apply` rejects `SourcePeer`; the legacy table predates peering) -/
+def Op.local : Op → Prop
+  | .lset _ r => r.peer = []
+  | _ => True
+
+theorem storeWF_applyOpE {st : Store} (h : StoreWF st) (o : Op) (ho : o.local) : StoreWF (applyOpE st o).1 := by
+  cases o with
+  | ent e => exact storeWF_applyEntry h e
+  | entdel n => exact storeWF_deleteEntry h n
+  | up dst v => exact storeWF_mutUpsert h dst v
+  | del dst src => exact storeWF_mutDelete h dst src
+  | lcreate dst v => exact storeWF_mutLegacyCreate h dst v
+  | lset id r => exact storeWF_legacySet h id r ho
+  | ldel id => exact storeWF_legacyDelete h id
+
+theorem storeWF_run {st : Store} (h : StoreWF st) (ops : List Op) (ho : ∀ o ∈ ops, o.local) : StoreWF (run st ops) := by
+  induction ops generalizing st with
+  | nil => exact h
+  | cons o os ih =>
+    simp only [run, List.foldl_cons]
+    exact ih (storeWF_applyOpE h o (ho o List.mem_cons_self)) (fun x hx => ho x (List.mem_cons_of_mem _ hx))
+
+theorem storeWF_runE {st st' : Store} (h : StoreWF st) (ops : List Op) (ho : ∀ o ∈ ops, o.local)
+    (hr : runE st ops = some st') : StoreWF st' := by
+  induction ops generalizing st with
+  | nil => simp [runE] at hr; subst hr; exact h
+  | cons o os ih =>
+    unfold runE at hr
+    have hw := storeWF_applyOpE h o (ho o List.mem_cons_self)
+    split at hr
+    · next st1 heq =>
+      rw [heq] at hw
+      exact ih hw (fun x hx => ho x (List.mem_cons_of_mem _ hx)) hr
+    · cases hr
+
+/-! ### answers depend only on the set of stored intentions -/
+
+/-- the two stores hold the same intentions (in whatever representation, entry order, source order) -/
+def SameSet (a b : Store) : Prop := ∀ i, i ∈ flatten a ↔ i ∈ flatten b
+
+theorem inMatch_congr {F G : List Ixn} (h : ∀ i, i ∈ F ↔ i ∈ G) (side : Side) (n : Name) (i : Ixn) :
+    inMatch F side n i ↔ inMatch G side n i := by
+  unfold inMatch
+  cases side <;> simp only [h]
+
+theorem sortIxns_ext {R S : List Ixn} (hR : KeysNodup R) (hS : KeysNodup S) (h : ∀ i, i ∈ R ↔ i ∈ S) :
+    sortIxns R = sortIxns S := by
+  have hp : R.Perm S := (List.perm_ext_iff_of_nodup hR.nodup hS.nodup).mpr h
+  apply isort_perm_invariant less_strictWeak hp
+  intro a ha b hb h1 h2
+  exact hR.keyInj a ha b hb (less_tri h1 h2).2
+
+theorem matchList_sameSet {a b : Store} (ha : StoreWF a) (hb : StoreWF b) (h : SameSet a b) (side : Side) (n : Name) :
+    matchList a side n = matchList b side n := by
+  obtain ⟨R, hR, hRk, hRm⟩ := matchList_eq_sort ha side n
+  obtain ⟨S, hS, hSk, hSm⟩ := matchList_eq_sort hb side n
+  rw [hR, hS]
+  apply sortIxns_ext hRk hSk
+  intro i
+  rw [hRm, hSm]
+  exact inMatch_congr h side n i
+
+theorem listAll_sameSet {a b : Store} (ha : StoreWF a) (hb : StoreWF b) (h : SameSet a b) :
+    listAll a = listAll b :=
+  sortIxns_ext (flatten_keysNodup ha) (flatten_keysNodup hb) h
+
 end CV.Ixn
